@@ -1,7 +1,7 @@
 (* C19 — OLD BEHAVIOUR.  This is the faithful model of the validation paths of /repo/flowpaths at commit a068bcc, i.e.
    BEFORE the repairs 2df6a3b (k validated for every k-model), 59945c9 (source/sink edge lists), c9173c7 (coverage range
    without constraints), 92ea36c (constraints validated before the greedy shortcut), 10a634a (MinErrorFlow string nodes),
-   3d7a4b5 (empty constraint in node mode) and 65c87ad (lower bound honours additional starts/ends).
+   3d7a4b5 (empty constraint in node mode) 65c87ad (lower bound honours additional starts/ends) and 003f186 (non-edge item in a node-mode edge-list constraint).
    It is kept only as documentation: ValidateOldRefuted.v proves, with concrete witnesses, that this old code was not
    fail-closed.  The model of the current code is Validate.v; nothing here is extracted or compared with /repo. *)
 From Coq Require Import List Bool ZArith QArith Arith.
